@@ -174,7 +174,7 @@ func refersToComponentSchema(ref string) bool {
 func (g *generator) walkObject(schema *openapi3.Schema) (ast.Type, error) {
 	if len(schema.Properties) == 0 {
 		if schema.AdditionalProperties.Schema == nil {
-			return ast.Any(), nil
+			return ast.Any(ast.Default(typedValue(schema, schema.Default))), nil
 		}
 
 		valueType, err := g.walkSchemaRef(schema.AdditionalProperties.Schema)
@@ -288,8 +288,8 @@ func (g *generator) walkBoolean(schema *openapi3.Schema) (ast.Type, error) {
 	return t, nil
 }
 
-func (g *generator) walkAny(_ *openapi3.Schema) (ast.Type, error) {
-	return ast.Any(), nil
+func (g *generator) walkAny(schema *openapi3.Schema) (ast.Type, error) {
+	return ast.Any(ast.Default(typedValue(schema, schema.Default))), nil
 }
 
 func (g *generator) walkAllOf(schema *openapi3.Schema) (ast.Type, error) {
